@@ -152,7 +152,9 @@ class Highlighter(object):
             if start[1] > current_col:
                 buffer += token_info.line[current_col : start[1]]
 
-            if current_type != new_type:
+            if current_type != new_type and not buffer.endswith("\\"):
+                # (a chunk is not closed after a backslash, which would escape the
+                # closing tag: the token joins the chunk)
                 line += self._chunk(current_type, buffer)
                 buffer = ""
                 current_type = new_type
